@@ -165,6 +165,27 @@ def float_field(enc, field_bytes):
     return ref_float_raw(enc, field_bytes)
 
 
+def mil1750a(w):
+    """MIL-STD-1750A 32-bit float from its big-endian word: 24-bit two's-complement mantissa (sign included) scaled by
+    2 ** (8-bit two's-complement exponent - 23)"""
+    return twos(low(shr(w, 8), 24), 24) * 2.0 ** (twos(low(w, 8), 8) - 23)
+
+
+@axiom
+def float_field_mil(enc, b):
+    """what float_field means for MIL-STD-1750A encodings, in either byte order"""
+    return (implies(enc.encoding == 'MILSTD_1750A' and len(b) == 4 and enc.byte_order == 'leastSignificantByteFirst',
+                    float_field(enc, b) == mil1750a(le(b))) and
+            implies(enc.encoding == 'MILSTD_1750A' and len(b) == 4 and enc.byte_order != 'leastSignificantByteFirst',
+                    float_field(enc, b) == mil1750a(be(b))))
+
+
+@axiom
+def float_field_ieee(enc, b):
+    """... and for IEEE encodings: struct.unpack (E2) with the format string fixed at construction"""
+    return implies(enc.encoding != 'MILSTD_1750A', feq(float_field(enc, b), ieee(enc._struct_format, b)))
+
+
 def no_ctx_match(enc, packet, cur, n):
     """none of the first n context calibrators of the encoding matches"""
     return forall(lambda k: not ctx_match(at(enc.context_calibrators, k), packet, cur), 0, n)
@@ -302,7 +323,7 @@ def enc_ok(e):
     """shape invariants the proved parse_value contracts require"""
     return (implies(cls_is(e, 'IntegerDataEncoding'),
                     num_ok(e) and (e.encoding == 'unsigned' or e.encoding == 'signed' or e.encoding == 'twosComplement')) and
-            implies(cls_is(e, 'FloatDataEncoding'), num_ok(e)) and
+            implies(cls_is(e, 'FloatDataEncoding'), num_ok(e) and cap(e.parse_func, 'self') == e) and
             implies(cls_is(e, 'StringDataEncoding'),
                     is_none(e.length_linear_adjuster) or (is_none(e.fixed_length) and not is_none(e.dynamic_length_reference))) and
             implies(cls_is(e, 'BinaryDataEncoding'),
